@@ -50,6 +50,10 @@ fn kernighan_lin_2_impl<T>(
         .unique()
         .collect::<Vec<_>>();
 
+    if unique_ids.len() < 2 {
+        // A single part (or no element at all): there is nothing to swap.
+        return;
+    }
     if unique_ids.len() != 2 {
         unimplemented!();
     }
